@@ -151,8 +151,15 @@ func (f *Frame) load(a *Addr, st *State) *Val {
 	}
 	ls := leavesOf(a.T, f.E.Mode)
 	ts := make([]*Term, len(ls))
+	var bound *Term
+	sameBound := len(ls) > 0
 	for i, l := range ls {
 		key, sort := f.leafKey(a, l)
+		if b := st.boundOf(key); bound == nil {
+			bound = b
+		} else if !termEq(bound, b) {
+			sameBound = false
+		}
 		cur := st.Get(key, sort)
 		f.E.noteVars(cur)
 		switch a.Kind {
@@ -164,7 +171,11 @@ func (f *Frame) load(a *Addr, st *State) *Val {
 			ts[i] = cur
 		}
 	}
-	return valFromLeaves(a.T, f.E.Mode, ts)
+	v := valFromLeaves(a.T, f.E.Mode, ts)
+	if sameBound {
+		v.Bound = bound
+	}
+	return v
 }
 
 func (f *Frame) store(a *Addr, v *Val, st *State) {
@@ -216,19 +227,28 @@ func (f *Frame) loadChecked(a *Addr) *Val {
 }
 
 func (f *Frame) assumeAllocated(v *Val) {
-	// refs observed in memory are live objects (or nil)
+	// refs observed in memory are live objects (or nil); a value read from a heap
+	// key that still has its entry value was already allocated at function entry
+	isAlloc := f.isAlloc
+	if v.Bound != nil {
+		a := v.Bound
+		isAlloc = func(r *Term) *Term {
+			f.E.noteVars(a)
+			return Or(Eq(r, IntLit(0)), allocatedIn(a, r))
+		}
+	}
 	var rec func(v *Val)
 	rec = func(v *Val) {
 		switch v.K {
 		case VScalar:
 			if v.T != nil {
 				if _, k, ok := scalarSortOf(v.T, f.E.Mode); ok && k == "ref" && !v.X.IsLit() {
-					f.assume(f.isAlloc(v.X), "observed ref is allocated")
+					f.assume(isAlloc(v.X), "observed ref is allocated")
 				}
 			}
 		case VSlice:
 			if !v.Base.IsLit() {
-				f.assume(f.isAlloc(v.Base), "observed backing array is allocated")
+				f.assume(isAlloc(v.Base), "observed backing array is allocated")
 			}
 		case VStruct, VTuple:
 			for _, x := range v.Fields {
